@@ -510,6 +510,17 @@ def directed_prefix_worlds():
         "sched": {"kind": "prefix", "runtime": 0, "lookahead": 0, "later_rate": 0.7}, "flags": {"timeout": 60, "frequency": 1}, "seed": 2,
         "stop_at": 2, "preload": True,
     })
+    # one single-gpu worker, three independent long tasks: some are planned for later by the prefix policy, the others
+    # are still RELEASED at the next invocation - a policy that does not know the plans (Z3) collides with them
+    out.append({
+        "name": "released_beside_plans",
+        "profiles": [{"name": "P0", "strats": [{"dem": [R("gpu", "any", 1)], "rt": 9, "bs": 1}]}],
+        "graphs": [{"name": "G0", "jobs": [{"name": "A", "profile": 0}, {"name": "B", "profile": 0}, {"name": "C", "profile": 0}],
+                    "policy": {"type": "fixed", "period": 1, "n": 1, "start": 0}, "dv": [200, 300]}],
+        "pools": [[[I("gpu", "g1", 1)]]],
+        "sched": {"kind": "prefix", "runtime": 0, "lookahead": 0, "answer_rate": 0.5, "later_rate": 1.0},
+        "flags": {"timeout": 60, "frequency": 1}, "seed": 1, "stop_at": 2,
+    })
     for w in out:
         w.setdefault("flags", {})
         _with_loading(w)
@@ -603,7 +614,7 @@ def direct_configs(rnd, tier, world):
     la, rtg = sc.get("lookahead", 0), bool(sc.get("rtg", False))
     cfgs = [("edf", {"enforce": False}), ("edf", {"enforce": True}), ("fifo", {"enforce": False}), ("fifo", {"enforce": True}),
             ("lsf", {})]  # fmt: skip
-    n_ilp, n_ts, n_z3 = (3, 1, 2) if tier == "quick" else (6, 3, 3)
+    n_ilp, n_ts, n_z3 = (2, 1, 2) if tier == "quick" else (6, 3, 3)
     ilp = [{"goal": g, "enforce": e, "lookahead": la, "retract": r, "rtg": rtg}
            for g, e in (("max_goodput", True), ("max_slack", True), ("max_slack", False)) for r in (False, True)]  # fmt: skip
     for o in rnd.sample(ilp, min(n_ilp, len(ilp))):
@@ -613,8 +624,13 @@ def direct_configs(rnd, tier, world):
                                    "plan_ahead": rnd.choice([8, 12])}))  # fmt: skip
         cfgs.append(("ts_cplex", {"enforce": B(), "lookahead": la, "retract": B() and not rtg, "disc": rnd.choice([1, 1, 2]),
                                   "plan_ahead": rnd.choice([6, 10])}))  # fmt: skip
-    for _ in range(n_z3):
-        cfgs.append(("z3", {"enforce": B(), "lookahead": la, "retract": B(), "rtg": rtg}))
+    if world.get("name"):  # directed states: every Z3 option combination
+        for e in (False, True):
+            for r in (False, True):
+                cfgs.append(("z3", {"enforce": e, "lookahead": la, "retract": r, "rtg": rtg}))
+    else:
+        for _ in range(n_z3):
+            cfgs.append(("z3", {"enforce": B(), "lookahead": la, "retract": B(), "rtg": rtg}))
     cfgs.append(("clockwork", {"goal": "clockwork", "start": B()}))
     cfgs.append(("clockwork", {"goal": "least_slack", "start": B()}))
     return cfgs
@@ -941,8 +957,8 @@ def slim(rec, keep_state=True):
 def make_plan(tier):
     rnd = random.Random(f"c10:{seed()}:{tier}")
     if tier == "quick":
-        n_sim = {"edf": 4, "fifo": 3, "lsf": 5, "ilp": 6, "ts_gurobi": 4, "ts_cplex": 3, "clockwork": 3}
-        n_prefix = 14
+        n_sim = {"edf": 3, "fifo": 3, "lsf": 4, "ilp": 5, "ts_gurobi": 4, "ts_cplex": 3, "clockwork": 3}
+        n_prefix = 8
     else:
         n_sim = {"edf": 80, "fifo": 60, "lsf": 80, "ilp": 160, "ts_gurobi": 100, "ts_cplex": 70, "clockwork": 70}
         n_prefix = 420
@@ -960,7 +976,7 @@ def run(tier: str) -> CheckResult:
     os.environ[GUARD] = "1"
     t0 = time.time()
     sims, prefixes = make_plan(tier)
-    max_calls = 8 if tier == "quick" else 40
+    max_calls = 6 if tier == "quick" else 40
     # slow solver worlds first, one pool for both parts
     jobs_w = [("prefix", w, i, tier, max_calls) for i, w in enumerate(prefixes)]
     order = {"ts_cplex": 0, "ilp": 1, "ts_gurobi": 2}
